@@ -38,7 +38,7 @@ def bfs(expand, ctx, init_hist, init_hash, max_depth, deadline, acc, max_states=
             break
         n = shards_per_level or max(1, min(WORKERS * 4, len(frontier) // 4 or 1))
         items = [(ctx, c) for c in chunks(frontier, n)]
-        sub = run_shards(expand, items, deadline)
+        sub = run_shards(expand, items, deadline, persistent=True)
         nxt = sub.info.pop("next", [])
         acc.merge(sub)
         depth += 1
